@@ -5,6 +5,7 @@ CONSTANTS
   PathsC <- MCPaths
   WritesC <- MCWrites
   Victim = "R"
+  ConvertGuard = TRUE
   EphemeralIsRealm = TRUE
   MaxDepth = 6
   MaxFvals = 0
